@@ -233,12 +233,9 @@ def _stagnant(draw, case, n, mode, solids=False):
         md["pors"] = None
         scale = md["Dw"] / 9.31e-9
     exch = draw(st.booleans())
-    if exch and solids:
-        # known finding (replays/C11/known/stagnant-exchange-frozen-water-ratio.json): the first-order exchange factors are
-        # computed once from the water masses at the start; with reactive solids the water masses change and moles are
-        # no longer conserved to 1e-9 -> reactive solids are only combined with explicit MIX definitions
-        exch = False
-        case["excluded"] = ["solids_with_exchange_factor_stagnant"]
+    # (known finding stagnant-exchange-frozen-water-ratio: the first-order exchange conserves moles only while the water-mass
+    #  ratio of each mobile/stagnant pair stays at the ratio the factors were built for; reactive solids change it by about
+    #  1e-6 -- the inventory clause carries the mechanism's own bound, see clause_inventory)
     if exch:
         th_m = draw(cg.uni(0.1, 0.5, 2))
         th_im = draw(cg.uni(0.02, 0.5, 2))
